@@ -15,8 +15,10 @@ def generalise(rng, pat):
             words[i] = "*"
         return " ".join(words)
     if x < 0.85:
-        # truncate and close with ~
-        k = rng.randint(1, len(words))
+        # truncate and close with ~ (always wider than the original: a pattern must not split the rows of one rulebook key)
+        if len(words) < 2:
+            return pat
+        k = rng.randint(1, len(words) - 1)
         w = words[:k]
         if w[-1] == "~":
             return " ".join(w)
